@@ -301,7 +301,7 @@ sim::RunResult run(const Json& sc) {
           if (h.kind == vr.sufkind && h.n == vr.offered && h.namelen == (int)vr.name.size() + 1 &&
               (h.tablen == 0 ? vr.table.empty() : (int)vr.table.size() < h.tablen)) { ok = true; break; }
         if (!ok) {
-          v.set("SUFFIX_LENGTH_MISMATCH", "text", "suffix delivered with name '" + vr.name.substr(0, 40) + "' (" + std::to_string(vr.name.size()) + " chars), table of " +
+          v.set("SUFFIX_LENGTH_MISMATCH", bytes.find('\0') != std::string::npos ? "text-embedded-nul" : "text", "suffix delivered with name '" + vr.name.substr(0, 40) + "' (" + std::to_string(vr.name.size()) + " chars), table of " +
                 std::to_string(vr.table.size()) + " chars, kind " + std::to_string(vr.sufkind) + ", n " + std::to_string(vr.offered) + ": no suffix header line in the file states these lengths");
           break;
         }
